@@ -733,7 +733,7 @@ def check_C15(tier):
 
 def check_C16(tier):
     scns = (sc.churn("C16", "bcast", caps=(2,), cycles=7 if tier == "quick" else 12) +
-            sc.churn("C16l", "bcast", caps=(1,), cycles=13)[3:] +
+            sc.churn("C16l", "bcast", caps=(1,), cycles=13)[3:] + sc.two_churners("C16t") +
             sc.churn("C16", "mpmc", caps=(2,), cycles=7 if tier == "quick" else 12) +
             sc.churn("C16", "bcast", caps=(1,), cycles=7, fut=True))
     return generic_check("C16", tier, ["C16"], scns, plans_for(tier, dfs_cap_quick=1500, rnd_quick=400), RULE_CONC +
